@@ -393,8 +393,47 @@ func (c *cfgInfo) dominatedByEdge(e edge) map[*ssa.BasicBlock]bool {
 	return d
 }
 
-// guardsAt returns the branch conditions whose outcome is fixed on every path reaching block b.
+// guardsAt returns the branch conditions whose outcome is fixed on every path reaching block b. Conditions that
+// were hoisted into a boolean variable (`ok := a && b; if ok {`) are expanded: such a variable is a phi of
+// constants and one computed value, so its truth fixes the conjuncts (or disjuncts) as well.
 func guardsAt(b *ssa.BasicBlock) []Guard {
+	return expandGuards(rawGuardsAt(b), 0)
+}
+
+func expandGuards(gs []Guard, depth int) []Guard {
+	if depth > 4 {
+		return gs
+	}
+	out := append([]Guard(nil), gs...)
+	for _, g := range gs {
+		ph, ok := g.Cond.(*ssa.Phi)
+		if !ok {
+			continue
+		}
+		// edges that can produce the observed truth value
+		var live []int
+		for i, e := range ph.Edges {
+			if c, isC := constBool(e); isC && c != g.Truth {
+				continue
+			}
+			live = append(live, i)
+		}
+		if len(live) != 1 {
+			continue
+		}
+		i := live[0]
+		pred := ph.Block().Preds[i]
+		extra := rawGuardsOnEdge(pred, ph.Block())
+		if _, isC := constBool(ph.Edges[i]); !isC {
+			c, neg := stripNot(ph.Edges[i])
+			extra = append(extra, Guard{Cond: c, Truth: g.Truth != neg, If: g.If})
+		}
+		out = append(out, expandGuards(extra, depth+1)...)
+	}
+	return out
+}
+
+func rawGuardsAt(b *ssa.BasicBlock) []Guard {
 	fn := b.Parent()
 	c := cfgOf(fn)
 	var out []Guard
@@ -419,9 +458,8 @@ func guardsAt(b *ssa.BasicBlock) []Guard {
 	return out
 }
 
-// guardsOnEdge returns the conditions fixed when control flows from pred to succ (guards of pred plus pred's own branch).
-func guardsOnEdge(pred, succ *ssa.BasicBlock) []Guard {
-	out := guardsAt(pred)
+func rawGuardsOnEdge(pred, succ *ssa.BasicBlock) []Guard {
+	out := rawGuardsAt(pred)
 	if len(pred.Instrs) == 0 {
 		return out
 	}
@@ -434,6 +472,11 @@ func guardsOnEdge(pred, succ *ssa.BasicBlock) []Guard {
 		}
 	}
 	return out
+}
+
+// guardsOnEdge returns the conditions fixed when control flows from pred to succ (guards of pred plus pred's own branch).
+func guardsOnEdge(pred, succ *ssa.BasicBlock) []Guard {
+	return expandGuards(rawGuardsOnEdge(pred, succ), 0)
 }
 
 // blockReachable reports whether `to` is reachable from `from` (following successors, length>=0).
@@ -903,3 +946,109 @@ func cellLoadsFlow(addr ssa.Value, sinks []*ssa.Function, root *ssa.Function, se
 }
 
 func types_Identical(a, b types.Type) bool { return types.Identical(a, b) }
+
+// loopInduction recognises an induction variable i = init; i < bound; i++ in both shapes go/ssa produces:
+// the classic header test `phi < bound` and the rotated range-over-int loop whose body ends with `phi+1 < bound`
+// (guarded by `init < bound` before the loop). It also accepts `bound > phi` spellings and range-over-slice
+// (`rangeindex`) loops whose bound is len(x).
+func loopInduction(ph *ssa.Phi) (init ssa.Value, bound ssa.Value, ok bool) {
+	var inc ssa.Value
+	for _, e := range ph.Edges {
+		if isAddConst(e, ph, 1) {
+			inc = e
+		} else {
+			init = e
+		}
+	}
+	if inc == nil || init == nil {
+		return nil, nil, false
+	}
+	find := func(v ssa.Value) ssa.Value {
+		for _, u := range usesOf(v) {
+			b, isB := u.(*ssa.BinOp)
+			if !isB {
+				continue
+			}
+			if b.Op == token.LSS && b.X == v {
+				return b.Y
+			}
+			if b.Op == token.GTR && b.Y == v {
+				return b.X
+			}
+		}
+		return nil
+	}
+	if b := find(ph); b != nil {
+		return init, b, true
+	}
+	if b := find(inc); b != nil {
+		return init, b, true
+	}
+	return nil, nil, false
+}
+
+// indexInduction generalises loopInduction to the value actually used as index: either the phi itself, or - in
+// range-over-slice loops (`for i := range xs`, lowered with a phi starting at -1 that is incremented before use) -
+// the incremented value. It returns the value to treat as "i", its first value and its exclusive bound.
+func indexInduction(v ssa.Value) (iv ssa.Value, first int64, bound ssa.Value, ok bool) {
+	if ph, isPhi := v.(*ssa.Phi); isPhi {
+		if init, b, ok := loopInduction(ph); ok {
+			if c, isC := constInt(init); isC {
+				return ph, c, b, true
+			}
+		}
+		return nil, 0, nil, false
+	}
+	if b, isB := v.(*ssa.BinOp); isB && b.Op == token.ADD {
+		if ph, isPhi := b.X.(*ssa.Phi); isPhi && isAddConst(b, ph, 1) {
+			hasSelf, initC := false, int64(0)
+			hasInit := false
+			for _, e := range ph.Edges {
+				if e == ssa.Value(b) {
+					hasSelf = true
+				} else if c, isC := constInt(e); isC {
+					initC, hasInit = c, true
+				}
+			}
+			if hasSelf && hasInit {
+				for _, u := range usesOf(b) {
+					if cmp, isCmp := u.(*ssa.BinOp); isCmp && cmp.Op == token.LSS && cmp.X == ssa.Value(b) {
+						return b, initC + 1, cmp.Y, true
+					}
+				}
+			}
+		}
+	}
+	return nil, 0, nil, false
+}
+
+// naturalLoop returns the blocks of the loop headed by h (back edges are predecessors dominated by h).
+func naturalLoop(h *ssa.BasicBlock) map[*ssa.BasicBlock]bool {
+	loop := map[*ssa.BasicBlock]bool{h: true}
+	var stack []*ssa.BasicBlock
+	for _, p := range h.Preds {
+		if h.Dominates(p) && !loop[p] {
+			loop[p] = true
+			stack = append(stack, p)
+		}
+	}
+	for len(stack) > 0 {
+		b := stack[len(stack)-1]
+		stack = stack[:len(stack)-1]
+		for _, p := range b.Preds {
+			if !loop[p] {
+				loop[p] = true
+				stack = append(stack, p)
+			}
+		}
+	}
+	return loop
+}
+
+// dominatesViaGuard: for rotated loops the code after the loop is dominated by the block that guards the loop
+// (its immediate dominator), not by the loop body; accept when h's immediate dominator dominates b and b is
+// reachable from h.
+func dominatesViaGuard(h, b *ssa.BasicBlock) bool {
+	id := h.Idom()
+	return id != nil && id.Dominates(b) && blockReachable(h, b)
+}
